@@ -150,6 +150,7 @@ func main() {
 	flag.Parse()
 	tier := drv.Tier(*tierF)
 	r := seq.New("C15", tier, "model_checking")
+	defer r.CrashGuard()
 	r.Rule = "one evaluation = one history of WriteLevel/Trigger/Close calls applied to two TriggerLevelWriter instances one after the other (so the second takes the first one's pooled buffer), executed on the real writer in lock-step with the reference model, or one interleaving of a concurrent scenario; distinct = distinct (levels, history, destination sequence); non-trivial = at least one line was held back"
 	r.Assumptions = []string{"levels from {-128,-1,0,1,3,9,127} (never 10, the separator byte)", "lines end in exactly one newline and contain no interior newline", "sync.Pool modelled as a LIFO list under the scheduler"}
 	L := 5
@@ -202,6 +203,40 @@ func main() {
 			}
 		}
 		r.Count("sequential_histories", r.Evals)
+		// the same histories with the buffer-reuse limit below every buffer's capacity (what a writer that once
+		// held more than 64 KiB sees): Close must still drop what was held
+		{
+			before := r.Evals
+			oldLimit := zerolog.TriggerLevelWriterBufferReuseLimit
+			zerolog.TriggerLevelWriterBufferReuseLimit = 16
+			for _, pair := range [][2]zerolog.Level{{0, 3}, {3, 1}, {1, 1}} {
+				idx := make([]int, L)
+				for {
+					hist := make([]op, L)
+					for i := range hist {
+						hist[i] = ops[idx[i]]
+					}
+					hidx++
+					if hidx%int64(nshards) == int64(shard) {
+						runHistory(r, pair[0], pair[1], false, hist)
+					}
+					k := L - 1
+					for k >= 0 {
+						idx[k]++
+						if idx[k] < len(ops) {
+							break
+						}
+						idx[k] = 0
+						k--
+					}
+					if k < 0 {
+						break
+					}
+				}
+			}
+			zerolog.TriggerLevelWriterBufferReuseLimit = oldLimit
+			r.Count("no_reuse_histories", r.Evals-before)
+		}
 		// destination failures: the statement does not say what a failing destination does to the held lines,
 		// but "no line is duplicated or altered" and "held lines in their original order" hold for every history: with
 		// one failing destination call, every received line is one that was written, at most once, held ones in order
